@@ -588,10 +588,16 @@ void urcu_bp_unregister(struct rcu_reader *rcu_reader_reg)
 	mutex_lock(&rcu_registry_lock);
 	remove_thread(rcu_reader_reg);
 	mutex_unlock(&rcu_registry_lock);
+	/*
+	 * Drop the reference with signals still blocked: urcu_bp_exit()
+	 * takes init_lock, and a signal handler using the read-side on
+	 * this now unregistered thread would register it again and
+	 * self-deadlock on that lock.
+	 */
+	urcu_bp_exit();
 	ret = pthread_sigmask(SIG_SETMASK, &oldmask, NULL);
 	if (ret)
 		abort();
-	urcu_bp_exit();
 }
 
 /*
